@@ -5,7 +5,7 @@ EXTENDS Benchmark, Json
 CONSTANTS MaxRuns, EmitVectors
 VARIABLES store, hist
 vars == <<store, hist>>
-Opts == { o \in [owp : BOOLEAN, pot : BOOLEAN, sf : BOOLEAN, owf : BOOLEAN] : o.owf => o.sf }   \* documented constraint
+Opts == { o \in [owp : BOOLEAN, pot : BOOLEAN, sf : BOOLEAN, owf : BOOLEAN, ns : (NS - 1)..NS] : (o.owf => o.sf) /\ o.ns >= 1 }
 Init == store = EmptyStore /\ hist = << >>
 Snapshot(r) == [pred |-> { <<x[1][1], x[1][2], x[1][3], x[2], r.st.pred[x]>> : x \in DOMAIN r.st.pred },
                 fitted |-> { <<k[1], k[2], k[3], r.st.fitted[k]>> : k \in DOMAIN r.st.fitted },
@@ -19,12 +19,13 @@ DoRun(o, crash) ==
        /\ hist' = Append(hist, [o |-> o, crash |-> crash, snap |-> Snapshot(r), before |-> store])
 First == hist = << >> /\ \E o \in Opts : ~o.owp /\ ~o.owf /\ \E c \in 0..NCalls(o) : DoRun(o, c)
 Again == /\ hist # << >>
-         /\ LET o == hist[1].o IN
+         /\ LET o == [hist[1].o EXCEPT !.ns = hist[Len(hist)].o.ns] IN        \* strategies only ever join
             \/ \E c \in 0..NCalls(o) : (c = 0 \/ Len(hist) = 1) /\ DoRun(o, c)          \* resume / identical re-run
             \/ (~hist[Len(hist)].snap.crashed /\ DoRun([o EXCEPT !.owp = TRUE], 0))       \* overwrite predictions
             \/ (~hist[Len(hist)].snap.crashed /\ ~o.pot /\ DoRun([o EXCEPT !.pot = TRUE], 0))   \* now also the train part
             \/ (~hist[Len(hist)].snap.crashed /\ ~o.sf /\ \E c \in {0, 3} : DoRun([o EXCEPT !.sf = TRUE], c))  \* now also save the fitted strategies
             \/ (~hist[Len(hist)].snap.crashed /\ o.sf /\ DoRun([o EXCEPT !.owf = TRUE], 0))     \* re-save the fitted strategies
+            \/ (~hist[Len(hist)].snap.crashed /\ o.ns < NS /\ \E c \in {0, 2} : DoRun([o EXCEPT !.ns = NS], c)) \* more strategies join
 Next == First \/ Again
 Spec == Init /\ [][Next]_vars
 
@@ -33,25 +34,25 @@ NoOverwrite(h) == ~h.o.owp /\ ~h.o.owf
 \* completed work is neither recomputed nor modified by a run without overwriting
 Inv_NoRecomputeWhenComplete ==
     (hist # << >> /\ NoOverwrite(Last)) =>
-        \A k \in AllKeys : Complete(Last.before, k, Last.o) => (k \notin Last.snap.fits /\ \A p \in {"train", "test"} : <<k[1], k[2], k[3], p>> \notin Last.snap.preds)
+        \A k \in RunKeys(Last.o) : Complete(Last.before, k, Last.o) => (k \notin Last.snap.fits /\ \A p \in {"train", "test"} : <<k[1], k[2], k[3], p>> \notin Last.snap.preds)
 Inv_CompletedUntouched ==
     (hist # << >> /\ NoOverwrite(Last)) =>
         \A x \in DOMAIN Last.before.pred : Has(store.pred, x) /\ store.pred[x] = Last.before.pred[x]
 \* a successful run leaves exactly one record per key and requested part
 Inv_ExactlyOneRecordPerKey ==
     (hist # << >> /\ ~Last.snap.crashed) =>
-        \A k \in AllKeys : Has(store.pred, <<k, "test">>) /\ (Last.o.pot => Has(store.pred, <<k, "train">>))
+        \A k \in RunKeys(Last.o) : Has(store.pred, <<k, "test">>) /\ (Last.o.pot => Has(store.pred, <<k, "train">>))
                             /\ (Last.o.sf => Has(store.fitted, k))
 \* after any successful run the store equals that of an uninterrupted run: same records, and the persisted
 \* registry lists every strategy and dataset, so that reading back yields every record
 Inv_FinalEqualsUninterrupted ==
     (hist # << >> /\ ~Last.snap.crashed) =>
-        /\ store.master.S = 1..NS /\ store.master.D = 1..ND
+        /\ 1..Last.o.ns \subseteq store.master.S /\ store.master.D = 1..ND
         /\ \A f \in 1..NF : Readable(store, f, "test") /\ (Last.o.pot => Readable(store, f, "train"))
 \* exactly the missing records are produced by a resumed run
 Inv_ExactlyMissingProduced ==
     (hist # << >> /\ NoOverwrite(Last) /\ ~Last.snap.crashed) =>
-        \A k \in AllKeys : (k \in Last.snap.fits) = ~Complete(Last.before, k, Last.o)
+        \A k \in RunKeys(Last.o) : (k \in Last.snap.fits) = ~Complete(Last.before, k, Last.o)
 \* a further identical run performs no fits
 Inv_IdenticalRerunDoesNoFits ==
     (Len(hist) >= 2 /\ NoOverwrite(Last) /\ ~hist[Len(hist) - 1].snap.crashed /\ hist[Len(hist) - 1].o = Last.o)
@@ -59,7 +60,7 @@ Inv_IdenticalRerunDoesNoFits ==
 \* a run with overwriting enabled recomputes every record
 Inv_OverwriteRecomputesAll ==
     (hist # << >> /\ Last.o.owp /\ ~Last.snap.crashed) =>
-        \A k \in AllKeys : k \in Last.snap.fits /\ store.pred[<<k, "test">>] = Len(hist)
+        \A k \in RunKeys(Last.o) : k \in Last.snap.fits /\ store.pred[<<k, "test">>] = Len(hist)
 Emit == (EmitVectors /\ Len(hist) = MaxRuns) =>
     PrintT(ToJson([runs |-> [i \in DOMAIN hist |-> [o |-> hist[i].o, crash |-> hist[i].crash, snap |-> hist[i].snap]]]))
 =============================================================================
